@@ -317,3 +317,10 @@ Theorem chain_wide_form_gap_not_wide :
     exists s te, m_start y = N.of_nat s /\ m_end y = N.of_nat te /\ ~ M false d (widen_re (rcat items)) s te.
 Proof. exact chain_wide_gap_refuted. Qed.
 Print Assumptions chain_wide_form_gap_not_wide.
+
+(* ... also with an unbounded gap when the pattern is greedy (the longest end is kept) *)
+Theorem chain_misses_with_longest_end_per_start :
+  exists items d, ~ chain_complete_starts false (split_at_large_gaps items) d
+                      (scan_chain_abs false true false (split_at_large_gaps items) d).
+Proof. exact chain_complete_one_end_greedy_refuted. Qed.
+Print Assumptions chain_misses_with_longest_end_per_start.
